@@ -116,6 +116,8 @@ func (m *Module) setupCache() {
 // Param renders the plugin parameter for a config file path.
 func Param(cfgPath string) string { return "config=" + cfgPath }
 
+var pkgClause = regexp.MustCompile(`(?m)^package (\w+)`)
+
 var funcRe = regexp.MustCompile(`(?m)^func (GenSchema\w+|Copy\w+FromTerraform|Copy\w+ToTerraform)\(`)
 
 // TopFuncs returns the names of the top-level generated functions of a source text.
@@ -269,6 +271,10 @@ func customSuffixes(specs map[string]*spec.Msg) []string {
 func (m *Module) writePackage(b *Built) {
 	c := b.Case
 	pbPkg := c.ID
+	// the struct package is named by protoc-gen-gogo (go_package may rename it)
+	if m := pkgClause.FindStringSubmatch(b.Gogo.Content()); m != nil {
+		pbPkg = m[1]
+	}
 	structsDir, tfDir := b.Dir, b.Dir
 	tfPkg := pbPkg
 	b.ImportPath = "scratch/cases/" + c.ID
